@@ -143,6 +143,9 @@ func c04() {
 				}
 				cmps, loads := traceCompares(c.Raw, tr.PCs)
 				for _, cm := range cmps {
+					if cm.word == 0 && (cm.k == 0x40000000 || cm.k == 0x3fffffff) {
+						continue // the x32 boundary test is no name or argument rule, wherever the compiler places it
+					}
 					if cm.word != 1 {
 						fail("foreign-arch-compared-against-rule", fmt.Sprintf("a foreign-architecture event was compared against constant %#x while the accumulator held record word %d", cm.k, cm.word), e, want, got)
 						return
